@@ -1180,6 +1180,15 @@ class SVG:
 
         g = etree.Element(f"{{{svgns()}}}g")
         g.extend(svg)
+        # a nested <svg> is a container element: the presentation attributes it carries
+        # (fill, opacity, display, ...) apply to its content like those of a <g>
+        for attr_name, attr_value in svg.attrib.items():
+            if attr_name in _INHERITABLE_ATTRIB and attr_name not in (
+                "transform",
+                "overflow",
+                "clip-path",
+            ):
+                g.attrib[attr_name] = attr_value
 
         if viewport != viewbox:
             preserve_aspect_ratio = svg.attrib.get("preserveAspectRatio", "xMidYMid")
